@@ -1,5 +1,6 @@
 import PybropsModel.Drv.C01
 import PybropsModel.Drv.C02
+import PybropsModel.Drv.C08
 import PybropsModel.Drv.C11
 import PybropsModel.Drv.C13
 import PybropsModel.Drv.C14
@@ -10,6 +11,7 @@ namespace Drv
 def allOps : List (String × J.Op) := List.flatten [
   Drv.C01.ops,
   Drv.C02.ops,
+  Drv.C08.ops,
   Drv.C11.ops,
   Drv.C13.ops,
   Drv.C14.ops,
